@@ -719,11 +719,7 @@ def strread_ctor(ctx, lexpr):
 def witnesses(ctx):
     r = ctx.rule("C17-T", "type-level witnesses: a StrRead cannot be built from bytes outside the crate "
                           "(compile_fail doc-tests, each paired with a compiling twin)")
-    wdir = os.path.join(build.VERIF, "witness")
-    lock_src = os.path.join(build.REPO, "Cargo.lock")
-    if os.path.exists(lock_src):
-        import shutil
-        shutil.copyfile(lock_src, os.path.join(wdir, "Cargo.lock"))
+    wdir = build._sync_lock(os.path.join(build.VERIF, "witness"))
     import tempfile
     tgt = tempfile.mkdtemp(prefix="tgt-w-", dir=build.WORK)
     try:
